@@ -13,12 +13,12 @@ from run import Case
 import zoo
 
 PROPERTY = "C07"
-LEAN_MODULE = "PyOak.Props.C07Main"
+LEAN_MODULE = "PyOak.Props.C07All"
 THEOREMS = ["PyOak.C07." + t for t in [
     "sat_snoc", "matchUpC_eq_sat", "findall_sound", "findall_complete", "findall_complete_mem", "findall_iff",
     "findall_nodup", "find_first", "matchUpT_eq", "matchUpT_eq_sat", "match_eq_sat", "chain_length_le"]]
-PARTIAL = ["the text -> elements step (lexer, parser, transformer walk: 'all digits significant', whitespace "
-           "irrelevance) is modelled and exercised by the correspondence on every run but has no parse/render theorem yet"]
+THEOREMS += ["PyOak.C07P." + t for t in ["xlex_render", "parseSteps_render", "xwalk_spec", "digits_significant",
+                                          "parseXPath_render", "parseXPath_render_rel"]]
 RULE = ("grammar-derived xpaths (1-4 steps, every anywhere/field/index/class combination, indices 0-13 and "
         "multi-digit/zero-padded, empty index, field names child/root/items, subclass hierarchies, random "
         "whitespace between tokens) x seeded zoo trees without repeated objects (tuples up to length 14; 35% contain whole duplicated subtrees, i.e. pairwise == twins under == parents); every "
